@@ -4,6 +4,7 @@ import (
 	"encoding/binary"
 	"fmt"
 	"sort"
+	"strings"
 
 	"verifsim/ref"
 )
@@ -45,6 +46,7 @@ type attOpts struct {
 	sparse    int  // >0: one file announced with this size of which only a few packets ever arrive: very long gaps
 	again1211 bool // a file's 0x1211 may be repeated after its first data packet
 	second    bool // the files are announced by two alarms (0x1210): the second arrives while the first file is unfinished
+	reuse     bool // after everything else a further alarm announces a file under the name of the first one (new content)
 }
 
 // fileName draws a file name valid on the wire for the dialect (no NUL, fits the chunk header).
@@ -125,6 +127,21 @@ func (g *genCtx) genUpload(ci int, o attOpts) {
 			if g.r.chance(20) {
 				name = "../" + name
 			}
+			if dialect != 2 && g.r.chance(12) {
+				// announced names may be longer than the 50-byte name field of a data packet's header; a terminal that
+				// truncates sends the first 50 bytes there. The first 50 bytes are a harmless local path, the whole is not.
+				switch g.r.intn(4) {
+				case 0:
+					name = strings.Repeat("./", 25) + "../pwn.bin"
+				case 1:
+					name = "." + strings.Repeat("/", 49) + "../victim"
+				case 2:
+					name = strings.Repeat("k", 50) + "/../../OTHER/file.bin"
+				default:
+					name = strings.Repeat("d/", 24) + "ee" + strings.Repeat("/..", 26) + "/outside.txt"
+				}
+				p.Faults = append(p.Faults, "input.name_longer_than_packet_field")
+			}
 			if used[name] {
 				name = g.fileName(dialect, used, o)
 			}
@@ -174,9 +191,11 @@ func (g *genCtx) genUpload(ci int, o attOpts) {
 		p.Faults = append(p.Faults, "input.second_alarm_mid_upload")
 	}
 	ctl(0x1210, attach1210Body(dialect, "TERM001", alarmID, files[:firstN]), 0, "")
+	units[len(units)-1].Xfer = firstN // files announced once this alarm has arrived
 	if firstN < nfiles {
 		cur = &second
 		ctl(0x1210, attach1210Body(dialect, "TERM001", alarmID+"B", files[firstN:]), 0, "")
+		second[len(second)-1].Xfer = nfiles
 		cur = &units
 	}
 	order := make([]int, nfiles)
@@ -334,6 +353,44 @@ func (g *genCtx) genUpload(ci int, o attOpts) {
 			}
 			units = append(units, post[fi]...)
 		}
+	}
+	if o.reuse && o.sparse == 0 && o.holes == 0 {
+		// a later alarm on the same connection uploads a file under a name used before (its upload is finished by
+		// now): the new file is a file of its own - new size, new content, complete only when all of it has arrived
+		old := files[g.r.intn(nfiles)]
+		size := 1 + g.r.intn(o.chunkMax*2)
+		if g.r.chance(40) {
+			size = old.size()
+		}
+		nf := UpFile{Name: old.Name, Data: g.r.bytes(size), Type: old.Type}
+		files = append(files, nf)
+		p.Expect.Uploads[len(p.Expect.Uploads)-1].Files = files
+		fi := len(files) - 1
+		cur = &units
+		ctl(0x1210, attach1210Body(dialect, "TERM001", alarmID+"R", files[fi:]), 0, "")
+		units[len(units)-1].Xfer = len(files)
+		ctl(0x1211, body1211(string(nf.Name), nf.Type, size), fi+1, string(nf.Name))
+		var offs [][2]int
+		for off := 0; off < size; {
+			n := 1 + g.r.intn(o.chunkMax)
+			if off+n > size {
+				n = size - off
+			}
+			offs = append(offs, [2]int{off, n})
+			off += n
+		}
+		if g.r.chance(50) {
+			for i := len(offs) - 1; i > 0; i-- {
+				j := g.r.intn(i + 1)
+				offs[i], offs[j] = offs[j], offs[i]
+			}
+		}
+		for _, c := range offs {
+			units = append(units, SentFrame{Chunk: true, File: fi + 1, Off: c[0], Body: nf.Data[c[0] : c[0]+c[1]], Valid: true,
+				Raw: chunkUnit(dialect, string(nf.Name), c[0], nf.Data[c[0]:c[0]+c[1]]), Name: nf.Name})
+		}
+		ctl(0x1212, body1211(string(nf.Name), nf.Type, size), fi+1, string(nf.Name))
+		p.Faults = append(p.Faults, "input.file_name_reused_by_later_alarm")
 	}
 	p.Expect.Frames[ci] = units
 	stream, ends := streamOf(units)
